@@ -167,7 +167,16 @@ Lemma skel_rule_ok :
      Call "SelectStoreToImprove"; IfE "newStore == 0" [Ret] []; Call "CreateMovePeerOperator"; Ret]
   /\ Gen_C10.skel_rule_fixOrphanPeers =
     [IfE "len(fit.OrphanPeers) == 0" [Ret] []; ForE [Call "IsSatisfied"; IfE "!rf.IsSatisfied()" [Ret] []]; Call "CreateRemovePeerOperator"; Ret]
-  /\ Gen_C10.skel_rule_strategy = [Call "NewLabelConstaintFilter"; Ret].
+  /\ Gen_C10.skel_rule_strategy = [Call "NewLabelConstaintFilter"; Ret]
+  (* fixLooseMatchPeer: a region without a leader is given up before the leader is dereferenced *)
+  /\ Gen_C10.skel_rule_fixLooseMatchPeer =
+    [IfE "region.GetLeader() == nil" [Ret] [];
+     IfE "core.IsLearner(peer) && rf.Rule.Role != placement.Learner" [Call "CreatePromoteLearnerOperator"; Ret] [];
+     IfE "region.GetLeader().GetId() != peer.GetId() && rf.Rule.Role == placement.Leader"
+         [Call "allowLeader"; IfE "c.allowLeader(fit, peer)" [Call "CreateTransferLeaderOperator"; Ret] []; Ret] [];
+     IfE "region.GetLeader().GetId() == peer.GetId() && rf.Rule.Role == placement.Follower"
+         [ForE [Call "allowLeader"; IfE "c.allowLeader(fit, p)" [Call "CreateTransferLeaderOperator"; Ret] []]; Ret] [];
+     Ret].
 Proof. repeat split; reflexivity. Qed.
 
 (* ---------- the builder requests behind the three operator kinds ---------- *)
@@ -178,3 +187,9 @@ Lemma chains_ok :
   /\ Gen_C10.chain_CreateReplaceLeaderPeerOperator =
        ["NewBuilder(desc, cluster, region)"; "RemovePeer(oldStore)"; "AddPeer(peer)"; "SetLeader(leader.GetStoreId())"; "Build(kind)"].
 Proof. repeat split; reflexivity. Qed.
+
+(* ---------- CheckerController.CheckRegion: joint-state checker first; rule checker, or learner checker then replica
+   checker; each behind the replica schedule limit; merge checker last ---------- *)
+Lemma skel_CheckRegion_ok : Gen_C10.skel_CheckRegion =
+  [Call "Check"; IfE "op != nil" [Ret] []; Call "IsPlacementRulesEnabled"; IfE "c.opts.IsPlacementRulesEnabled()" [Call "Check"; IfE "op != nil" [Call "OperatorCount"; Call "GetReplicaScheduleLimit"; IfE "opController.OperatorCount(operator.OpReplica) < c.opts.GetReplicaScheduleLimit()" [Ret] []] []] [Call "Check"; IfE "op != nil" [Ret] []; Call "Check"; IfE "op != nil" [Call "OperatorCount"; Call "GetReplicaScheduleLimit"; IfE "opController.OperatorCount(operator.OpReplica) < c.opts.GetReplicaScheduleLimit()" [Ret] []] []]; IfE "c.mergeChecker != nil" [Call "OperatorCount"; Call "GetMergeScheduleLimit"; IfE "!allowed" [] [Call "Check"; IfE "ops != nil" [Ret] []]] []; Ret].
+Proof. reflexivity. Qed.
